@@ -7,7 +7,7 @@ Multi-simplices are not allowed.
 
 """
 
-from collections.abc import Hashable, Iterable
+from collections.abc import Hashable, Iterable, Iterator
 from copy import copy, deepcopy
 from itertools import combinations, count
 from warnings import warn
@@ -501,6 +501,8 @@ class SimplicialComplex(Hypergraph):
         # format 5 is the easiest one
         if isinstance(ebunch_to_add, dict):
             for idx, members in ebunch_to_add.items():
+                if isinstance(members, Iterator):  # one-shot iterable: read it once
+                    members = list(members)
                 # check that it does not exist yet (based on members, not ID)
                 if not members or self.has_simplex(members):
                     continue
@@ -542,6 +544,8 @@ class SimplicialComplex(Hypergraph):
             first_edge = next(new_edges)
         except StopIteration:
             return
+        if isinstance(first_edge, Iterator):  # one-shot iterable: read it once
+            first_edge = list(first_edge)
         try:
             first_elem = list(first_edge)[0]
         except (TypeError, IndexError):  # not iterable, or an empty edge
@@ -586,6 +590,8 @@ class SimplicialComplex(Hypergraph):
                 _ = iter(members)
             except TypeError as e:
                 raise XGIError("Invalid ebunch format") from e
+            if isinstance(members, Iterator):  # one-shot iterable: read it once
+                members = list(members)
 
             # check that it does not exist yet (based on members, not ID)
             if not members or self.has_simplex(members):
